@@ -68,6 +68,11 @@ CHECKS = {
              "The scheduler (token passing over futexes in an uninstrumented translation unit) picks the next thread at every mutex lock/unlock, allocation, clock and entropy call: random with per-run switch probability and seam subset, or PCT-style priorities. "
              "Oracles: no ThreadSanitizer report (its happens-before graph holds only the library's own locks), no ASan/UBSan report on the same plans, no deadlock (wait-for check whenever a thread blocks on a modelled mutex), every session completes with exact data, "
              "each resumption decision is one that some sequential order consistent with the recorded invoke/return sequence numbers allows (ticket-key deletion before / concurrent with / after the resumption)."),
+    "C10": dict(engine="interop", level="exploration", design="10/C10",
+        technique="deterministic simulation with an independent stack as the peer: OpenSSL (static, in-process, RNG replaced by a seeded stream, clock simulated) against MatrixSSL over the simulated transport with benign re-chunking; enumerated mutual matrix plus seeded swarm",
+        text="Both role assignments x TLS 1.1/1.2/1.3 x all 18 TLS<=1.2 suites both stacks have (RSA, ECDHE-RSA, ECDHE-ECDSA; AES-CBC-SHA/SHA256/SHA384, AES-GCM) and the three TLS 1.3 suites x RSA-2048 / P-256 / P-384 / P-521 identities x P-256/P-384/P-521/X25519 "
+             "key exchange incl. HelloRetryRequest x client authentication x session-id, RFC 5077 ticket and TLS 1.3 PSK resumption (1-2 resumed connections) x EMS on/off x payload lengths 1..33000 both ways x four re-chunking modes. "
+             "Oracle: both ends complete, agree on version and on resumed/not, payloads byte-exact; a failure is reported only if MatrixSSL<->MatrixSSL and OpenSSL<->OpenSSL both pass the same configuration (else counted not_mutual). DTLS, PSK, DHE-RSA and static-ECDH suites are outside this workload."),
 }
 
 NOT_APPLICABLE = [
